@@ -22,7 +22,7 @@ BASE = {
     "shielding": "", "rate-modifier": [], "ode-modifier": [], "solver": "cvode", "device": "cpu", "method": "dense",
 }
 ALPHABET = {
-    "name": ["p", "my_proj"],
+    "name": ["p", "my_proj", "DeutNet"],
     "description": ["d", "two words", ""],
     "elements": ["", "e,H,He,C,O", "e, H, He , C, O", "H,C"],
     "pseudo-elements": ["", "CR", "CR,Photon,CRP", "CR, Photon"],
